@@ -20,3 +20,16 @@ func (c *HTTPGroupController) ZZMembers(group string) []string {
 	defer g.mu.RUnlock()
 	return append([]string(nil), g.pxyNames...)
 }
+
+// ZZMembers returns the number of members of a tcp group (-1 if the group does not exist).
+func (c *TCPGroupCtl) ZZMembers(group string) int {
+	c.mu.Lock()
+	g := c.groups[group]
+	c.mu.Unlock()
+	if g == nil {
+		return -1
+	}
+	g.mu.Lock()
+	defer g.mu.Unlock()
+	return len(g.lns)
+}
